@@ -457,6 +457,16 @@ func judgeC17(rep *lib.Report, c *lib.Ctx, ln *printerLine, res *realResult, hoo
 	if !same {
 		rep.Violate("hook:dispatch", fmt.Sprintf("%s: hook invoked for %v, the statement says %v (output %q)", desc, got, want, res.Out), kase)
 	}
+	if hook == "silent" && same {
+		// rendered solely by the hook: this hook writes nothing, so nothing of the errors it was given may show
+		for _, w := range want {
+			if t := findTerm(ln.C.Ts, w.ID); t != nil && len(t.B) > 0 && len(t.Pan) == 0 {
+				if txt := c.Subst(t.B); bytes.Contains(lib.Strip(res.Out), txt) {
+					rep.Violate("hook:not-sole-renderer", fmt.Sprintf("%s: the hook printed nothing for error #%d, yet its text %q is in the output %q", desc, w.ID, txt, res.Out), kase)
+				}
+			}
+		}
+	}
 	if len(ln.C.Ts) == 1 && ln.C.Ts[0].K == "unsafe" && !bytes.Equal(lib.DeleteEnvelopes(res.Out), visibleLiterals(c, ln)) {
 		rep.Violate("hook:unsafe-not-enveloped", fmt.Sprintf("%s: output %q", desc, res.Out), kase)
 	}
